@@ -396,3 +396,13 @@ package sender
 //@   at[C15,C14] (*rsyncopts.Options).DebugGTE@1: set ghost.wfSent = 0
 //@   at[C15,C14] (*rsyncwire.Conn).WriteString: set ghost.wfSent = 1
 //@   ensures[C15,C14] [listed-exactly-when-sent] ret == nil ==> len(s.fileList.Files) == old(len(s.fileList.Files)) + ghost.wfSent
+
+// ---------------------------------------------------------------- C12/C15: the -c checksum of an entry
+// Under -c every regular file carries the MD4 of its content as read from the
+// source at the entry's path: the receiver's -c update rule compares that
+// value with the MD4 of its own copy (C12), for empty files like for any other.
+//@ ghost csReader: int
+//@ func (*sender.scopedWalker).walkFn
+//@   at[C12,C15] rsyncchecksum.ReaderChecksum: set ghost.csReader = data(arg0)
+//@   at[C12,C15] (sender.FileSource).Open: assert [checksum-of-the-listed-file] arg1 == path
+//@   at[C12,C15] (*rsyncwire.Buffer).WriteString@3: assert [checksum-is-the-md4-of-the-content] modeIsRegular(infoMode(data(info))) ==> arg1 == str(checksum) && bid(checksum) == md4Of(accApp(accEmpty, readerContent(ghost.csReader)))
